@@ -97,4 +97,25 @@ CHECKS = {
         floors={"mode=handler-early": 0.1, "mode=caller-cancel": 0.1, "mode=client-extra": 0.1, "mode=server-extra": 0.1},
         assumptions=COMMON_ASSUMPTIONS + ["a caller that stops reading without cancelling is documented head-of-line blocking (the quantifier lists cancellation) and is not generated"],
     ),
+    "C09": dict(
+        level="fault_enumeration",
+        rule=("rapid-generated scenarios: 1..5 concurrent calls (all four kinds; streams with optional separate header envelope and 0..3 bodies) against a scripted server whose response envelopes are emitted in a drawn interleaving; "
+              "the client transport's Read is made to fail after each prefix p=0..L of the delivered response envelopes (every position of every scenario, plus after the last), with the write side failing too or staying writable; "
+              "one more unary call and one more stream are started after the failure, and optionally a call is parked by the verif hook between the multiplexer's failure check and its registration until the failure has been recorded. "
+              "Oracle: at the next quiescent point every call has returned; a call succeeds only if its complete response had been delivered, and then with exactly the scripted data; streams receive a prefix of the scripted bodies and never end in io.EOF before their trailer was delivered; Header() returns; calls started afterwards and the window call fail. "
+              "Non-trivial = trace length >=2, or window armed, or write side still writable; counters.positions = (scenario, position) executions."),
+        jobs=[dict(test="TestC09", quick=320, thorough=6000)],
+        floors={"window=unary": 0.1, "window=stream": 0.1, "write_fails=false": 0.3},
+        assumptions=COMMON_ASSUMPTIONS + ["the check-then-register window is reached through the verif-tagged yield points mux.unary.beforeRegister / mux.stream.beforeRegister"],
+    ),
+    "C10": dict(
+        level="fault_enumeration",
+        rule=("rapid-generated scenarios: 0..8 unary and 0..8 streaming handlers driven by a scripted caller, each parked in a gate that ignores its context / on its context / in receive / in send (its transport write held) / echoing / already answered; "
+              "the connection ends by a read failure after p delivered request envelopes, by a failure of the j-th response write, or by Server.Stop() after p deliveries (p, j drawn over the whole trace). "
+              "Oracle at the quiescent point after the ending: Serve has returned - but not while a context-ignoring streaming handler is still running; every streaming handler has finished; the context of every in-flight handler, unary included, is done; "
+              "after the context-ignoring unary handlers have been released and returned, the synctest bubble ends with no goroutine left. Non-trivial = >=1 unary and >=1 stream in flight, or a handler parked in send."),
+        jobs=[dict(test="TestC10", quick=1200, thorough=30000)],
+        floors={"ending=readfail": 0.2, "ending=writefail": 0.2, "ending=stop": 0.2, "parked-in-send": 0.1},
+        assumptions=COMMON_ASSUMPTIONS + ["cancelling the context passed to Serve is not among the endings the property lists and is not generated"],
+    ),
 }
